@@ -40,7 +40,10 @@ libast_print_warning(const char *fmt, ...)
 void
 libast_fatal_error(const char *fmt, ...)
 {
-    (void) fmt;
+    extern int verif_fatal_forbidden;
+
+    CHECK("the fatal-error path is given a diagnostic", fmt != NULL);
+    CHECK("the process is only ended where the contract allows it (never at debug level 0)", !verif_fatal_forbidden);
     verif_fatal_calls++;
     verif_exited = 1;
 #ifdef REPLAY
